@@ -1318,6 +1318,9 @@ where
 
         if link.is_outbound() {
             if let Some(peer) = self.sessions.get_mut(&remote) {
+                // Nb. The session may have been taken over by an inbound connection since it
+                // was created; disconnections are matched against the recorded link.
+                peer.link = link;
                 peer.to_connected(self.clock);
                 self.outbox.write_all(peer, msgs);
             }
